@@ -14,6 +14,7 @@ pub mod c05;
 pub mod c06;
 pub mod bracket;
 pub mod c07;
+pub mod c08;
 pub mod c10;
 pub mod c11;
 pub mod c12;
@@ -34,6 +35,7 @@ pub fn make(property: &str) -> Vec<Box<dyn Monitor>> {
         "C17" => vec![Box::new(c17::C17::default())],
         "C05" => vec![Box::new(c05::C05::default())],
         "C07" => vec![Box::new(c07::C07::default())],
+        "C08" => vec![Box::new(c08::C08::default())],
         "C10" => vec![Box::new(c10::C10::default())],
         "C11" => vec![Box::new(c11::C11::default())],
         "C12" => vec![Box::new(c12::C12::default())],
